@@ -37,7 +37,8 @@ def splitBar (ts : List String) : List String × List String :=
 def eval (F : Facts) : List String → Option String
   | "drv" :: rest => do
     let (hd, arr) := splitBar rest
-    let [path, _bind, special, tT] := hd | none
+    -- `debug=on`: the client was built with the debug flag; behaviour must not depend on it
+    let [path, _bind, special, tT] := hd.filter (fun t => !t.startsWith "debug=") | none
     let T ← (kv tT).toNat?
     let as ← arr.mapM fun a => match a.splitOn ":" with
       | [ms, cl] => ms.toNat?.map fun t => let (p, v) := classOf cl; (⟨t, p, v⟩ : Arrival)
